@@ -106,10 +106,29 @@ func VerifyV4Signature(root RootUserConfig, iam auth.IAMService, logger s3log.Au
 		}
 
 		hashPayload := ctx.Get("X-Amz-Content-Sha256")
+
+		var contentLength int64
+		contentLengthStr := ctx.Get("Content-Length")
+		if contentLengthStr != "" {
+			contentLength, err = strconv.ParseInt(contentLengthStr, 10, 64)
+			if err != nil {
+				return sendResponse(ctx, s3err.GetAPIError(s3err.ErrInvalidRequest), logger, mm)
+			}
+		}
+
 		if utils.IsBigDataAction(ctx) {
-			// for streaming PUT actions, authorization is deferred
-			// until end of stream due to need to get length and
-			// checksum of the stream to validate authorization
+			// The signature covers the request line, the signed headers and
+			// the declared payload hash, none of which need the body: verify
+			// it now, so that a handler which never consumes the body cannot
+			// be reached without authentication.
+			err = utils.CheckValidSignature(ctx, authData, account.Secret, hashPayload, tdate, contentLength, debug)
+			if err != nil {
+				return sendResponse(ctx, err, logger, mm)
+			}
+
+			// for streaming PUT actions, the payload checksum is verified
+			// at the end of stream, once length and checksum of the
+			// stream are known
 			wrapBodyReader(ctx, func(r io.Reader) io.Reader {
 				return utils.NewAuthReader(ctx, r, authData, account.Secret, debug)
 			})
@@ -139,15 +158,6 @@ func VerifyV4Signature(root RootUserConfig, iam auth.IAMService, logger s3log.Au
 			// Compare the calculated hash with the hash provided
 			if hashPayload != hexPayload {
 				return sendResponse(ctx, s3err.GetAPIError(s3err.ErrContentSHA256Mismatch), logger, mm)
-			}
-		}
-
-		var contentLength int64
-		contentLengthStr := ctx.Get("Content-Length")
-		if contentLengthStr != "" {
-			contentLength, err = strconv.ParseInt(contentLengthStr, 10, 64)
-			if err != nil {
-				return sendResponse(ctx, s3err.GetAPIError(s3err.ErrInvalidRequest), logger, mm)
 			}
 		}
 
